@@ -75,15 +75,27 @@ CHECKS = {
     'C20': dict(
         engine='formula',
         technique='Lean 4 proof: kernel evaluation of the moment conditions on the weight tables REGENERATED from the source; polynomial exactness from the moment conditions (Taylor expansion, Mathlib); Vandermonde inverse for the general weights; exact rational solve in the Lean driver compared with the implementation',
-        text='Theorems: every hard-coded table of derivative() (extracted from the AST on every run) satisfies sum w_k k^j = n! [j = n] for j < m (decide +kernel); for any weights meeting the moment conditions the stencil sum of every real polynomial of degree < m equals dx^n times its n-th derivative at every point and step; the general weights n! (V^-1)_n of centralDiffWeights meet the moment conditions for any distinct nodes, hence are exact too. centralDiffWeights is compared with an exact rational solution computed (and self-checked) in Lean; derivative / gradient / hessianMatrix are evaluated on random polynomials and quadratics, gramSchmidOrth on random full-rank matrices (orthonormality, first column, J A = B). Gradient/Hessian and Gram-Schmidt theorems: see the evidence for what is proved vs tested.',
+        text='Theorems: every hard-coded table of derivative() (extracted from the AST on every run) satisfies sum w_k k^j = n! [j = n] for j < m (decide +kernel); for any weights meeting the moment conditions the stencil sum of every real polynomial of degree < m equals dx^n times its n-th derivative at every point and step; the general weights n! (V^-1)_n of centralDiffWeights meet the moment conditions for any distinct nodes, hence are exact too. centralDiffWeights is compared with an exact rational solution computed (and self-checked) in Lean; derivative / gradient / hessianMatrix are evaluated on random polynomials and quadratics, gramSchmidOrth on random full-rank matrices (orthonormality, first column, J A = B). Also proved: a partial derivative computed by the stencil along one coordinate is exact when the restriction is a polynomial of degree < m; the nested 3-point difference quotient of a quadratic form x^T A x equals A + A^T at every point and step (every dimension); the code-shaped Gram-Schmidt loops (sequential projection then normalisation, over any real inner-product space) return, for linearly independent inputs, an orthonormal list of the same length and span whose first element is the normalised first input; J = B A^-1 satisfies J A = B. Not modelled: the column-swap pre-loop for an alignment vector parallel to a later column (excluded by the property's hypothesis).',
         note='Trusted: Lean kernel + standard axioms + Mathlib; the table extractor in harness/translate.py; scipy.linalg.inv and numpy.linalg are external (results compared, not proved); rounding: comparisons at 1e-9 relative on dyadic points and steps.',
         ref='§5 C20'),
     'C14': dict(
         engine='oracle-stream',
-        technique='Lean 4 proof about code-shaped models of one sampler step (decision rule, negative densities, support invariance for positive draws, witness of the u = 0 finding) + detailed balance of the induced finite-state kernels (Mathlib, Proofs/C14Balance.lean when present) + trace validation of the implementation with scripted proposals and uniform draws',
-        text='Theorems for every target, domain test and every pair (candidate, uniform draw): one step of the plain sampler moves to the candidate exactly when the draw is at most the density ratio and the move stays in the domain, otherwise stays put; a negative density is an error; with a positive draw the chain never leaves the support; the component-wise sampler applies the rule per coordinate and tests the assembled candidate once. The implementation is driven with scripted proposals / draws / integer-valued target tables and must reproduce every decision of the model (trace validation). The u = 0 corner (move onto a zero-density candidate) is proved of the model and recorded as a known finding.',
+        technique='Lean 4 proof about code-shaped models of one sampler step (decision rule, negative densities, support invariance for positive draws, witness of the u = 0 finding) + detailed balance of the induced finite-state kernels (Mathlib, Proofs/C14Balance.lean) + trace validation of the implementation with scripted proposals and uniform draws',
+        text='Theorems for every target, domain test and every pair (candidate, uniform draw): one step of the plain sampler moves to the candidate exactly when the draw is at most the density ratio and the move stays in the domain, otherwise stays put; a negative density is an error; with a positive draw the chain never leaves the support; the component-wise sampler applies the rule per coordinate and tests the assembled candidate once. The induced transition kernels on finite state spaces (symmetric proposal, acceptance probability min(1, ratio), domain test on the destination; and the product of per-coordinate kernels followed by one domain test) have rows summing to one, are non-negative, satisfy detailed balance with respect to the target (resp. product target) restricted to the domain, and leave that restricted target stationary. The implementation is driven with scripted proposals / draws / integer-valued target tables and must reproduce every decision of the model (trace validation). The u = 0 corner (move onto a zero-density candidate) is proved of the model and recorded as a known finding.',
         note='Trusted: Lean kernel + standard axioms; hand-written models tied by trace validation (np.random.uniform, proposal, target, domain test observed / scripted from outside); detailed balance is for finite state spaces (continuous spaces are modelled by it, not formalised).',
         ref='§5 C14'),
+    'C16': dict(
+        engine='oracle-stream',
+        technique='Lean 4 proof (the four lag loops satisfy, and are the unique solution of, the documented recurrences for all orders, lengths and noise streams; random-walk step/decoding facts) + exact correspondence with the noise / randint streams scripted',
+        text='Theorems for all orders p, q >= 1, lengths (incl. shorter than the order), coefficients, observations and noise streams: the code-shaped models of arNormal, maNormal, armaNormal, arimaNormal have the requested length, begin with the observations and satisfy the documented recurrences (missing lags read as 0; ARIMA on first differences), and the recurrences determine the sequence uniquely; with a constant noise stream (zero spread) the output is the deterministic recurrence. The walk model starts at the origin, has numSteps+1 points, each step changes exactly one coordinate by exactly one, and the randint decoding is a bijection onto axis x sign. Models tied to /repo/src by exact correspondence with np.random.normal / randint replaced by scripted integer streams; with the real generator the noise is checked to be normal(mu, sigma, N) drawn after seed(randomSeed).',
+        note='Trusted: Lean kernel + standard axioms; hand-written models tied by exact correspondence (unbounded Python ints, so exact); numpy bit generator external; AR is stated under len(obs) = len(phis), which the implementation enforces (without it the model reads rst[0] for a truncated index: counterexample recorded in the proof file).',
+        ref='§5 C16'),
+    'C15': dict(
+        engine='state-machine',
+        technique='Lean 4 proof over all operation sequences of a state machine for numpy\'s global generator (seeded-call determinism, global-seed governance, inert construction) + protocol conformance of the implementation\'s observed seed/draw events + black-box replay from different prior generator states',
+        text='Theorems over every operation sequence and every prior generator state: a call with an integer seed consumes exactly the first draws of that seed\'s stream (so two such calls agree whatever was drawn before); after globalConfig.setSeed(n) the outputs of any sequence of calls passing no integer seed are a function of n and the sequence only; constructing a randomised object without an integer seed leaves the generator untouched. The implementation is tied to the machine by wrapping np.random.seed and every draw function from outside and checking, for random operation sequences over all ten randomised APIs, that its event trace is the contract\'s (seed called iff the argument is an int, with that value, before any draw; never with None except in setSeed(None)), and by replaying each sequence from different prior generator states and comparing outputs bit for bit.',
+        note='Trusted: Lean kernel + standard axioms; the abstract generator (a stream is identified by its seed; entropy re-seeding yields a fresh stream); the wrappers around numpy.random; "constructing never disturbs" is decided for constructions without an integer seed (an integer seed must restart the stream by the first clause).',
+        ref='§5 C15'),
 }
 
 NOT_YET = {}
